@@ -306,12 +306,81 @@ theorem step_inv (s : St) (st : Step) (h : Inv s) : Inv (s.step st) := by
       · rename_i t ht
         have := key s.x s.y t ht hx hy; exact ⟨this.1, this.2⟩
 
+  | check onX j i o => exact ⟨hx, hy⟩
+
+theorem decision_swap (i : Nebula.ConnMgr.In) (h : (Nebula.ConnMgr.trafficDecision i).decision = .swapPrimary) :
+    i.swap = true := by
+  unfold Nebula.ConnMgr.trafficDecision at h
+  repeat' split at h
+  all_goals first | assumption | (simp at h; done) | (dsimp only at h; simp_all)
+
+/-- a traffic check only deletes or reorders tunnels -/
+theorem check_shrink (me peer : Side) (j : Nat) (inT outT : Bool) :
+    (∀ t, t ∈ (me.check peer j inT outT).tunnels → t ∈ me.tunnels) ∧
+    (∀ t, t ∈ me.held → t ∈ (me.check peer j inT outT).held) ∧
+    (me.check peer j inT outT).inbox = me.inbox ∧ (me.check peer j inT outT).addr = me.addr ∧
+    ((me.check peer j inT outT).swaps = me.swaps ∨
+      ((me.check peer j inT outT).swaps = me.swaps + 1 ∧ shouldSwap me peer = true)) ∧
+    (me.check peer j inT outT).tunnels.length ≤ me.tunnels.length := by
+  unfold Side.check
+  split
+  · exact ⟨fun _ h => h, fun _ h => h, rfl, rfl, Or.inl rfl, Nat.le_refl _⟩
+  · rename_i t ht
+    dsimp only
+    split
+    · refine ⟨fun t' h' => mem_eraseIdx h', ?_, rfl, rfl, Or.inl rfl, ?_⟩
+      · intro t' h'
+        simp only [Side.held, List.mem_append, List.mem_singleton] at h' ⊢
+        rcases h' with h' | h'
+        · by_cases e : t' = t
+          · right; right; exact e
+          · left; exact mem_eraseIdx_of_ne ht h' e
+        · right; left; exact h'
+      · rw [List.length_eraseIdx]; split <;> omega
+    · rename_i hd
+      refine ⟨?_, ?_, rfl, rfl, Or.inr ⟨rfl, ?_⟩, ?_⟩
+      · intro t' h'
+        rcases List.mem_cons.mp h' with e | e
+        · subst e; exact List.mem_of_getElem? ht
+        · exact mem_eraseIdx e
+      · intro t' h'
+        simp only [Side.held, List.mem_append, List.mem_cons] at h' ⊢
+        rcases h' with h' | h'
+        · by_cases e : t' = t
+          · left; left; exact e
+          · left; right; exact mem_eraseIdx_of_ne ht h' e
+        · right; exact h'
+      · have := decision_swap _ hd; simpa [checkIn] using this
+      · have hj : j < me.tunnels.length := by
+          have := List.getElem?_eq_some_iff.mp ht; exact this.1
+        simp [List.length_eraseIdx, hj]; omega
+    · exact ⟨fun _ h => h, fun _ h => h, rfl, rfl, Or.inl rfl, Nat.le_refl _⟩
+
+theorem stepAll_inv (s : St) (st : Step) (h : Inv s) : Inv (s.stepAll st) := by
+  cases st with
+  | check onX j i o =>
+    obtain ⟨hx, hy⟩ := h
+    cases onX <;> simp only [St.stepAll, St.get, St.set, Bool.not_true, Bool.not_false, if_true, if_false, Bool.false_eq_true]
+    · have c := check_shrink s.y s.x j i o
+      have := paired_shrink s.y (s.y.check s.x j i o) s.x c.1 c.2.1 (fun m hm => c.2.2.1 ▸ hm) hy hx
+      exact ⟨this.2, this.1⟩
+    · have c := check_shrink s.x s.y j i o
+      have := paired_shrink s.x (s.x.check s.y j i o) s.y c.1 c.2.1 (fun m hm => c.2.2.1 ▸ hm) hx hy
+      exact ⟨this.1, this.2⟩
+  | start onX => exact step_inv s _ h
+  | resend onX => exact step_inv s _ h
+  | giveUp onX => exact step_inv s _ h
+  | deliver toX k => exact step_inv s _ h
+  | drop toX k => exact step_inv s _ h
+  | swap onX j => exact step_inv s _ h
+  | del onX j => exact step_inv s _ h
+
 theorem init_inv (ax ay : Nat) : Inv (St.init ax ay) := by
   simp [Inv, Paired, St.init]
 
 theorem run_inv (s : St) (steps : List Step) (h : Inv s) : Inv (s.run steps) := by
   induction steps generalizing s with
   | nil => exact h
-  | cons st rest ih => exact ih _ (step_inv s st h)
+  | cons st rest ih => exact ih _ (stepAll_inv s st h)
 
 end Nebula.Lemmas.HsRace
